@@ -14,7 +14,7 @@ from ..model import qt, loc_str, walk, inner, desugared
 from ..expr import canon, pretty, children, strip, callee_info, subterms, CALL_KINDS
 from ..cfg import cfg_of
 from ..qual import check_frame, axis_conflicts, axis_of, name_axis
-from .common import CQ, short, is_fixed_test, loop_has_early_exit, field_writes
+from .common import CQ, short, is_fixed_test, loop_has_early_exit, field_writes, expand_locals
 
 EXPLANATION = (
     "Static check on the clang-resolved AST. G12: in Circuit::computeRows the only push into the obstacle list inside the cell "
@@ -60,6 +60,28 @@ def run(ctx, rep, tier):
     rep.rule("ROLE", "Rectangle / Row / boost rectangle constructor arguments have the axis and bound of their position", 10)
     rep.rule("LN", "the per-cell vectors computeRows reads have one entry per cell: their setters check the length before storing", 5)
     rep.rule("PV", "builders take rows from computeRows(); raw rows_ read only by listed functions", 5)
+    rep.rule("TT", "isTurn() is true exactly for the four quarter-turn orientations (the placed footprint of an obstruction depends on it)", 8)
+    from ..tables import Evaluator, OutsideFragment, Abort
+    _ev = Evaluator(ctx.prog)
+    _it = ctx.prog.func(CQ + "isTurn", required=False) or []
+    if len(_it) != 1:
+        rep.unknown("TT", None, None, "isTurn", "not found (shape changed)")
+    else:
+        for _n, _v in dict(_ev.enumerators(CQ + "CellOrientation")).items():
+            if _n in ("INVALID", "UNKNOWN"):
+                continue
+            try:
+                _got = _ev.call(_it[0], [_v])
+            except (OutsideFragment, Abort) as _e:
+                rep.unknown("TT", _it[0].decl, _it[0], "isTurn(%s)" % _n, "outside the evaluable fragment: %s" % _e)
+                continue
+            _want = _n in ("E", "W", "FE", "FW")
+            if bool(_got) == _want:
+                rep.holds("TT", _it[0].decl, _it[0], "isTurn(%s) = %s" % (_n, _want))
+            else:
+                rep.violation("TT", _it[0].decl, _it[0], "isTurn(%s) = %s" % (_n, bool(_got)), "a cell in orientation %s %s a quarter turn: placedWidth / placedHeight, and with "
+                              "them the footprint subtracted from the rows for a fixed obstruction, exchange width and height exactly then" % (_n, "is" if _want else "is not"),
+                              key="isTurn|%s" % _n)
     check_g12(ctx, rep)
     check_g13(ctx, rep)
     fr = [f for q in SCOPE_FRAME for f in prog.func(CQ + q, required=False)]
@@ -179,9 +201,13 @@ def check_g12(ctx, rep):
     fs = [x for x in walk(body) if x.get("kind") == "CXXMemberCallExpr" and callee_info(x)["qname"] == CQ + "Row::freespace"]
     skip = loop_has_early_exit(body) or next((y for y in walk(body) if y.get("kind") == "ContinueStmt"), None)
     ok = bool(fs) and canon(callee_info(fs[0])["args"][0]) == ov and skip is None
-    ins = [x for x in walk(body) if x.get("kind") == "CXXMemberCallExpr" and callee_info(x)["name"] == "insert"]
+    ins = [x for x in walk(body) if x.get("kind") == "CXXMemberCallExpr" and callee_info(x)["name"] in ("insert", "push_back", "emplace_back")]
+    ins += [x for x in walk(body) if x.get("kind") == "CallExpr" and callee_info(x) and callee_info(x)["name"] in ("copy", "move", "copy_n") and
+            any(y.get("kind") == "CallExpr" and callee_info(y) and callee_info(y)["name"] in ("back_inserter", "inserter") for y in walk(x))]
     if ok and ins:
         rep.holds("G12", l, f, "freespace(obstacles) evaluated for every row, results appended")
+    elif ok:
+        rep.unknown("G12", l, f, "freespace(obstacles) evaluated for every row", "how the segments are appended to the result was not recognised")
     else:
         rep.violation("G12", l, f, "not every row is reduced by the full obstacle list", "freespace calls: %d, early exit/skip: %s" % (len(fs), skip is not None),
                       key="Circuit::computeRows|row loop incomplete")
@@ -238,8 +264,10 @@ def check_g13(ctx, rep):
         rep.unknown("G13", f.decl, f, "decomposition of the difference", "no call to boost::polygon get_rectangles found (shape changed)")
     for x in decs:
         names = {y.get("referencedDecl", {}).get("name") for y in walk(x) if y.get("kind") == "DeclRefExpr"}
-        if "HORIZONTAL" in names:
-            rep.violation("G13", x, f, "the difference is sliced into horizontal slabs",
+        member_form = x.get("kind") == "CXXMemberCallExpr" and "polygon_90_set_data" in qt(callee_info(x)["obj"] or {}) and len(callee_info(x)["args"]) == 1
+        if "HORIZONTAL" in names or (member_form and "VERTICAL" not in names):
+            rep.violation("G13", x, f, "the difference is sliced into horizontal slabs" + (" (polygon_90_set_data::get_rectangles(out) slices along the set's own "
+                          "orientation, HORIZONTAL unless the set was built otherwise; the free function get_rectangles(out, set) slices vertically)" if member_form and "HORIZONTAL" not in names else ""),
                           "the full-height filter then drops every column next to a partially covering obstruction; vertical strips (the default) are required",
                           key="Row::freespace|horizontal slicing")
         else:
@@ -249,6 +277,16 @@ def check_g13(ctx, rep):
              and "Row" in qt(callee_info(x)["obj"])]
     if not emits:
         rep.violation("G13", f.decl, f, "no segment is ever emitted", "", key="Row::freespace|no emit")
+    for x in emits:
+        lp = x.get("_p")
+        while lp is not None and lp.get("kind") not in ("CXXForRangeStmt", "ForStmt", "WhileStmt"):
+            lp = lp.get("_p")
+        if lp is None:
+            continue
+        ex = loop_has_early_exit([c_ for c_ in inner(lp) if isinstance(c_, dict)][-1])
+        if ex is not None and ex.get("kind") != "CXXThrowExpr":
+            rep.violation("G13", ex, f, "the scan of the free rectangles can stop early (%s)" % ex.get("kind"), "the rectangles come in no order that would make the rest "
+                          "uninteresting: every free column after the one that stops the scan is dropped from the row", key="Row::freespace|scan of the free rectangles stopped early")
     for x in emits:
         args = [canon(a) for a in callee_info(x)["args"]]
         guards = ctx.guards(f, x) or []
@@ -339,6 +377,16 @@ def obstacle_skips(ctx, f, body, var):
                 return "unknown", sk, "skip reached through an unrecognised path"
         for e in edges:
             c = canon(e.ast)
+            ce = expand_locals(ctx, f, c)
+            # "the obstacle is empty": its area is not positive. Sound when the area is computed in 64 bits (Rectangle::area()); a 32-bit
+            # product of its extents wraps for large macros (50000 x 56000) and the obstacle is silently not subtracted
+            if ce[0] == "bin" and ce[1] in ("<=", "==", "<") and e.val is True and ce[3][0] == "lit" and str(ce[3][1]) in ("0", "1"):
+                lhs = ce[2]
+                if lhs[0] == "call" and str(lhs[1]).endswith("Rectangle::area"):
+                    continue
+                if lhs[0] == "bin" and lhs[1] == "*" and all(t[0] == "call" and str(t[1]).split("::")[-1] in ("width", "height") for t in lhs[2:4]):
+                    return "bad", e.ast, "skip condition `%s` tests the obstacle's area through the 32-bit product %s: it wraps to a non-positive value for " \
+                        "large obstacles, which are then not subtracted at all" % (pretty(c), pretty(lhs))
             ok, why = separation_atom(c, e.val, var)
             if ok is False:
                 return "bad", e.ast, "skip condition `%s` %s" % (pretty(c), why)
